@@ -117,6 +117,21 @@ CLAIMS = {
              "elementwise) and RangeError/TypeError outcomes must equal the transcription of ECMA-262 22.1.3.",
         technique="differential symbolic execution of the string built-ins vs a spec transcription (CrossHair/z3)",
         design_ref="DESIGN.md section 4 (C16)"),
+    "C13": dict(
+        text="The real lexer and parser against a transcription of the ECMAScript expression grammar written as a printer "
+             "(vf/refsem/syntax.py): every pair of operator kinds (57 kinds: binary, logical, unary, update, assignment, "
+             "conditional, comma, member, call, new, arrow, literals) in every operand position and every triple over one "
+             "representative per binding class, printed with exactly the parentheses the grammar requires, must parse to the "
+             "intended tree, also with one redundant pair of parentheses at any position; non-reference assignment/update/"
+             "for-in targets must raise JSSyntaxError. Layout: white space and comments whose characters are solver variables "
+             "over all code points are inserted in 18 token-class contexts (restricted positions get no line terminators), "
+             "pinned trivia spellings at every token gap of every corpus program; string literals with symbolic characters "
+             "in every spelling mode, escapes, number spellings against exact rational arithmetic, identifiers with symbolic "
+             "letters; print/parse round trip of every corpus statement; every closing/opening bracket deleted in turn and "
+             "every unterminated string/comment/regex with symbolic content must be rejected.",
+        technique="symbolic execution of the real lexer/parser on symbolic source text (CrossHair/z3) + solver-indexed "
+                  "operator/gap tables, differential against the transcribed grammar",
+        design_ref="DESIGN.md section 4 (C13)"),
     "C14": dict(
         text="Encoding kernels over all sizes: for every opcode with an operand, Compiler._emit / _emit_jump / "
              "_patch_jump are executed with the operand, the jump target and the code size as solver variables in "
